@@ -13,7 +13,9 @@ REPO = os.environ.get("VERIF_REPO", "/repo")
 BUILD = os.path.join(ROOT, ".build")
 WORK = os.path.join(ROOT, ".work")
 COQ = os.path.join(ROOT, "coq")
-IMPL = os.path.join(BUILD, "cgns")
+_TAG = "" if REPO == "/repo" else "_" + hashlib.sha1(REPO.encode()).hexdigest()[:8]
+IMPL = os.path.join(BUILD, "cgns" + _TAG)        # a scratch worktree (VERIF_REPO=...) gets its own build dir
+HDIR = os.path.join(BUILD, "h" + _TAG)
 SAN_FLAGS = "-O1 -g -fno-omit-frame-pointer -fsanitize=address,undefined -fno-sanitize-recover=undefined"
 IMPL_CFLAGS = SAN_FLAGS + " -DCGNS_VERIF -w"
 HDF5_INC = "/usr/include/hdf5/serial"
@@ -51,7 +53,7 @@ class Infra(Exception):
 # ----------------------------------------------------------------------------- implementation build
 def build_impl():
     """(Re)build libcgns.a + tools from /repo's current working tree with sanitizers and hooks on."""
-    with Lock("impl"):
+    with Lock("impl" + _TAG):
         if not os.path.exists(os.path.join(IMPL, "build.ninja")):
             rc, out = sh(["cmake", "-G", "Ninja", "-S", REPO, "-B", IMPL, "-DCMAKE_BUILD_TYPE=None",
                           "-DCMAKE_C_FLAGS=" + IMPL_CFLAGS, "-DCGNS_BUILD_SHARED=OFF", "-DCGNS_ENABLE_HDF5=ON",
@@ -67,7 +69,7 @@ def build_impl():
 
 def build_harness(name, sources, link_lib=True, extra=None, includes=None):
     """Compile a C harness (from /verif/harness and/or /repo sources) against the fresh library."""
-    out = os.path.join(BUILD, "h", name)
+    out = os.path.join(HDIR, name)
     os.makedirs(os.path.dirname(out), exist_ok=True)
     cmd = ["cc"] + SAN_FLAGS.split() + ["-w", "-DCGNS_VERIF", "-I" + os.path.join(REPO, "src"),
            "-I" + os.path.join(IMPL, "src"), "-I" + os.path.join(REPO, "src", "adf"),
@@ -78,7 +80,7 @@ def build_harness(name, sources, link_lib=True, extra=None, includes=None):
     if link_lib:
         cmd += [os.path.join(IMPL, "src", "libcgns.a")] + HDF5_LIBS
     cmd += extra or []
-    with Lock("h_" + name):
+    with Lock("h_" + name + _TAG):
         rc, o = sh(cmd)
     if rc != 0:
         raise Infra("harness %s does not compile:\n%s" % (name, o[-4000:]))
@@ -90,12 +92,33 @@ FORBIDDEN = re.compile(r"\b(Admitted|admit|Axiom|Parameter|Conjecture|Admit Obli
                        r"Unset Guard Checking|Unset Positivity Checking|Unset Universe Checking|type-in-type)\b")
 
 
+COQ_WARN = "-notation-overridden,-deprecated-hint-without-locality,-deprecated-instance-without-locality"
+
+
+def gen_coqproject():
+    """coq/_CoqProject lists every .v file of the development (generated, never committed); coqdep orders them.
+    Each Extract_<engine>.v writes extracted/<engine>/model.ml, so those directories must exist."""
+    vs = sorted(f for f in os.listdir(COQ) if f.endswith(".v"))
+    txt = "-Q . CgnsV\n-arg -w -arg %s\n" % COQ_WARN + "\n".join(vs) + "\n"
+    p = os.path.join(COQ, "_CoqProject")
+    changed = not os.path.exists(p) or open(p).read() != txt
+    if changed:
+        open(p, "w").write(txt)
+    for f in vs:
+        if f.startswith("Extract_"):
+            os.makedirs(os.path.join(COQ, "extracted", f[len("Extract_"):-2]), exist_ok=True)
+    if changed or not os.path.exists(os.path.join(COQ, "Makefile")):
+        sh("coq_makefile -f _CoqProject -o Makefile", cwd=COQ)
+
+
 def coq_setup():
     """Full .vo build of the development (never -vos)."""
     with Lock("coq"):
-        rc, out = sh("coq_makefile -f _CoqProject -o Makefile && timeout 3000 make -j16 2>&1", cwd=COQ, timeout=3200)
+        gen_coqproject()
+        rc, out = sh("timeout 3000 make -k -j16 2>&1", cwd=COQ, timeout=3200)
     if rc != 0:
-        raise Infra("Coq development does not build:\n" + out[-4000:])
+        errs = re.findall(r'File "([^"]+)", line (\d+)', out)
+        raise Infra("Coq development does not build (%s):\n%s" % (errs[:5], out[-4000:]))
     return out
 
 
@@ -139,8 +162,7 @@ def coq_check_properties(pid, gen_files=None):
     src = open(os.path.join(COQ, pf)).read()
     theorems = re.findall(r"^\s*(?:Theorem|Lemma|Corollary)\s+(\w+)", strip_coq_comments(src), re.M)
     with Lock("coq"):
-        if not os.path.exists(os.path.join(COQ, "Makefile")):
-            sh("coq_makefile -f _CoqProject -o Makefile", cwd=COQ)
+        gen_coqproject()
         deps = re.findall(r"^\s*From\s+CgnsV\s+Require\s+(?:Import|Export)\s+([^.]*)\.", src, re.M)
         targets = []
         for d in deps:
@@ -150,9 +172,7 @@ def coq_check_properties(pid, gen_files=None):
         rc, out = sh(["timeout", "2400", "make", "-k", "-j16"] + targets, cwd=COQ, timeout=2500)
         log = out
         if rc == 0:
-            rc, out = sh(["timeout", "1200", "coqc", "-Q", ".", "CgnsV", "-w",
-                          "-notation-overridden,-deprecated-hint-without-locality,-deprecated-instance-without-locality",
-                          pf], cwd=COQ, timeout=1300)
+            rc, out = sh(["timeout", "1200", "coqc", "-Q", ".", "CgnsV", "-w", COQ_WARN, pf], cwd=COQ, timeout=1300)
             log += out
     failed = []
     if rc != 0:
@@ -197,37 +217,47 @@ def parse_assumptions(log):
 
 
 # ----------------------------------------------------------------------------- extracted model
-def build_modelrun():
-    """coq/extracted/model.ml (produced by Extract.v during the Coq build) + ocaml/*.ml -> .build/ocaml/modelrun"""
-    d = os.path.join(BUILD, "ocaml")
+def build_modelrun(engine):
+    """coq/extracted/<engine>/model.ml (written by Extract_<engine>.v during the Coq build) + ocaml/zutil.ml +
+    ocaml/eng_<engine>.ml (must define  run : unit -> unit) -> .build/ocaml/<engine>/modelrun"""
+    d = os.path.join(BUILD, "ocaml", engine)
     os.makedirs(d, exist_ok=True)
-    srcs = [os.path.join(COQ, "extracted", "model.mli"), os.path.join(COQ, "extracted", "model.ml")]
-    ml = sorted(f for f in os.listdir(os.path.join(ROOT, "ocaml")) if f.endswith(".ml"))
-    order = ["zutil.ml"] + [f for f in ml if f.startswith("eng_")] + ["modelrun.ml"]
-    srcs += [os.path.join(ROOT, "ocaml", f) for f in order]
+    ex = os.path.join(COQ, "extracted", engine)
+    with Lock("coq"):
+        gen_coqproject()
+        rc, out = sh(["timeout", "2400", "make", "-j16", "Extract_%s.vo" % engine], cwd=COQ, timeout=2500)
+    if rc != 0 or not os.path.exists(os.path.join(ex, "model.ml")):
+        raise Infra("extraction of engine %s failed:\n%s" % (engine, out[-3000:]))
+    srcs = [os.path.join(ex, "model.mli"), os.path.join(ex, "model.ml"), os.path.join(ROOT, "ocaml", "zutil.ml"),
+            os.path.join(ROOT, "ocaml", "eng_%s.ml" % engine)]
     exe = os.path.join(d, "modelrun")
-    with Lock("ocaml"):
-        stamp = hashlib.sha1(b"".join(open(s, "rb").read() for s in srcs)).hexdigest()
+    with Lock("ocaml_" + engine):
+        stamp = hashlib.sha1(b"".join(open(x, "rb").read() for x in srcs)).hexdigest()
         sf = os.path.join(d, "stamp")
         if os.path.exists(exe) and os.path.exists(sf) and open(sf).read() == stamp:
             return exe
-        for s in srcs:
-            shutil.copy(s, d)
-        rc, out = sh(["ocamlfind", "ocamlopt", "-w", "-a", "-o", "modelrun"] + [os.path.basename(s) for s in srcs],
-                     cwd=d)
+        for x in srcs:
+            shutil.copy(x, d)
+        open(os.path.join(d, "main.ml"), "w").write("let () = Eng_%s.run ()\n" % engine)
+        rc, out = sh(["ocamlfind", "ocamlopt", "-w", "-a", "-o", "modelrun"] + [os.path.basename(x) for x in srcs] +
+                     ["main.ml"], cwd=d)
         if rc != 0:
-            raise Infra("modelrun does not build:\n" + out[-3000:])
+            raise Infra("modelrun for %s does not build:\n%s" % (engine, out[-3000:]))
         open(sf, "w").write(stamp)
     return exe
 
 
-def run_model(engine, script, timeout=600):
-    exe = os.path.join(BUILD, "ocaml", "modelrun")
-    p = subprocess.run([exe, engine], input=script, stdout=subprocess.PIPE, stderr=subprocess.PIPE, text=True,
+def run_model(engine, script, args=(), timeout=600):
+    """Run the extracted model of `engine` on a script (stdin); returns its output lines."""
+    exe = os.path.join(BUILD, "ocaml", engine, "modelrun")
+    p = subprocess.run([exe] + list(args), input=script, stdout=subprocess.PIPE, stderr=subprocess.PIPE, text=True,
                        timeout=timeout)
     if p.returncode != 0:
         raise Infra("modelrun %s failed: %s" % (engine, p.stderr[-2000:]))
-    return p.stdout.split("\n")[:-1] if p.stdout.endswith("\n") else p.stdout.split("\n")
+    lines = p.stdout.split("\n")
+    if lines and lines[-1] == "":
+        lines.pop()
+    return lines
 
 
 def run_impl(exe, script, args=(), timeout=120, cwd=None, env=None):
